@@ -155,7 +155,7 @@ pub fn flat_seed(fmt: &str, name: &str, bytes: Vec<u8>, aux: u32, header_len: us
     s
 }
 
-pub fn chunk_ops(s: &Seed, max: usize) -> Vec<Dev> {
+pub fn chunk_ops(s: &Seed, max: usize, deep: bool) -> Vec<Dev> {
     let idx: Vec<usize> = (0..s.chunks.len()).collect();
     let idx = stride(&idx, max);
     let mut v = vec![];
@@ -167,6 +167,33 @@ pub fn chunk_ops(s: &Seed, max: usize) -> Vec<Dev> {
     }
     for &k in &idx {
         v.push(Dev::ChunkSwap(k));
+    }
+    if deep {
+        // consistent payload resizes of every chunk
+        for &k in &idx {
+            for m in 0..RESIZES.len() {
+                v.push(Dev::ChunkResize(k, m));
+            }
+        }
+        // exchange / joint deletion of any two siblings: per sibling group (top level, children of one
+        // container) all pairs of at most GROUP members (strided if the group is larger)
+        const GROUP: usize = 24;
+        let mut parents: Vec<Option<usize>> = s.chunks.iter().map(|c| c.parent).collect();
+        parents.sort();
+        parents.dedup();
+        for p in parents {
+            let members: Vec<usize> = (0..s.chunks.len()).filter(|&k| s.chunks[k].parent == p).collect();
+            let members = stride(&members, GROUP);
+            for (x, &a) in members.iter().enumerate() {
+                for (y, &b) in members.iter().enumerate().skip(x + 1) {
+                    if y > x + 1 || members.len() != s.chunks.iter().filter(|c| c.parent == p).count() {
+                        // adjacent siblings are the swap-with-next class
+                        v.push(Dev::ChunkSwap2(a, b));
+                    }
+                    v.push(Dev::ChunkDel2(a, b));
+                }
+            }
+        }
     }
     v
 }
@@ -329,6 +356,9 @@ struct FormatSpace {
     syms: OnceLock<SymCache>,
 }
 
+/// thorough: header-level sites per seed whose pairs are all enumerated (strided if a seed has more)
+const PAIR_SITES_T: usize = 56;
+
 /// site / chunk-op budgets per seed
 struct Budget {
     sites: usize,
@@ -336,6 +366,9 @@ struct Budget {
     chunk_ops: usize,
     pair_sites: usize,
     pair_seeds: usize,
+    /// thorough: neighbour pairs (distance <= near_dist in the file-ordered list of header-level sites) among the first near_sites header-level sites
+    near_dist: usize,
+    near_sites: usize,
 }
 
 impl FormatSpace {
@@ -344,8 +377,8 @@ impl FormatSpace {
         let mut seeds = seeds_in_child(&*fmt);
         seeds.sort_by_key(|s| s.bytes.len());
         let b = match tier {
-            Tier::Quick => Budget { sites: 120, vals: (0..VALS.len()).collect(), chunk_ops: 24, pair_sites: 0, pair_seeds: 0 },
-            Tier::Thorough => Budget { sites: 1600, vals: (0..VALS.len()).collect(), chunk_ops: 400, pair_sites: 40, pair_seeds: usize::MAX },
+            Tier::Quick => Budget { sites: 120, vals: (0..VALS.len()).collect(), chunk_ops: 24, pair_sites: 0, pair_seeds: 0, near_dist: 0, near_sites: 0 },
+            Tier::Thorough => Budget { sites: usize::MAX / 4, vals: (0..VALS_T.len()).collect(), chunk_ops: 600, pair_sites: PAIR_SITES_T, pair_seeds: usize::MAX, near_dist: 3, near_sites: 1200 },
         };
         // the seeds with the most header-level sites carry the 2-deviation class
         let mut by_hdr: Vec<usize> = (0..seeds.len()).collect();
@@ -363,12 +396,23 @@ impl FormatSpace {
             field_sites.sort();
             field_sites.dedup();
             let pair_sites = if pair_seeds.contains(&i) { stride(&hdr, b.pair_sites) } else { vec![] };
+            let mut near_pairs = vec![];
+            let all_hdr: Vec<usize> = all.iter().copied().filter(|&k| s.sites[k].header).take(b.near_sites).collect();
+            for (x, &a) in all_hdr.iter().enumerate() {
+                for &c in all_hdr.iter().skip(x + 1).take(b.near_dist) {
+                    if !(pair_sites.contains(&a) && pair_sites.contains(&c)) {
+                        near_pairs.push((a, c));
+                    }
+                }
+            }
             spaces.push(SeedSpace {
                 prefixes: prefix_lengths(s.bytes.len(), tier == Tier::Thorough),
                 field_sites,
                 vals: b.vals.clone(),
-                chunk_ops: chunk_ops(s, b.chunk_ops),
+                chunk_ops: chunk_ops(s, b.chunk_ops, tier == Tier::Thorough),
                 pair_sites,
+                near_pairs,
+                appends: if tier == Tier::Thorough { APPENDS.len() } else { 0 },
             });
         }
         let mut cum = vec![0u64];
@@ -405,13 +449,23 @@ impl FormatSpace {
         })
     }
     fn axes(&self) -> Value {
+        let mut v = self.axes_base();
+        if thorough() {
+            let m = v.as_object_mut().unwrap();
+            m.insert("near_pair_cases".into(), json!(self.spaces.iter().map(|s| s.near_cases()).sum::<u64>()));
+            m.insert("append_cases".into(), json!(self.spaces.iter().map(|s| s.appends as u64).sum::<u64>()));
+            m.insert("pair_sites_max".into(), json!(self.spaces.iter().map(|s| s.pair_sites.len()).max().unwrap_or(0)));
+        }
+        v
+    }
+    fn axes_base(&self) -> Value {
         json!({
             "seeds": self.seeds.len(),
             "seed_names": self.seeds.iter().map(|s| format!("{} ({} B, {} sites, {} chunks)", s.name, s.bytes.len(), s.sites.len(), s.chunks.len())).collect::<Vec<_>>(),
             "prefix_cases": self.spaces.iter().map(|s| s.prefixes.len() as u64).sum::<u64>(),
             "field_sites_enumerated": self.spaces.iter().map(|s| s.field_sites.len() as u64).sum::<u64>(),
             "field_sites_located": self.seeds.iter().map(|s| s.sites.len() as u64).sum::<u64>(),
-            "values_per_site": VALS.len(),
+            "values_per_site": self.spaces.first().map(|s| s.vals.len()).unwrap_or(0),
             "chunk_edit_cases": self.spaces.iter().map(|s| s.chunk_ops.len() as u64).sum::<u64>(),
             "pair_cases": self.spaces.iter().map(|s| s.pairs() * (VALS2.len() * VALS2.len()) as u64).sum::<u64>(),
             "cases": self.cum.last().copied().unwrap_or(0),
@@ -689,6 +743,11 @@ fn main() {
         for f in all_formats() {
             let sp = FormatSpace::new(f, if thorough() { Tier::Thorough } else { Tier::Quick });
             println!("{}: {}", sp.fmt.name(), serde_json::to_string_pretty(&sp.axes()).unwrap());
+            if std::env::args().any(|a| a == "-v") {
+                for (s, x) in sp.seeds.iter().zip(&sp.spaces) {
+                    println!("   {:<50} {:>7} B  sites {:>5} (header-level {:>5})  chunks {:>5} (top-level {:>4})  pair sites {:>3}  cases {:>8}", s.name, s.bytes.len(), s.sites.len(), s.sites.iter().filter(|t| t.header).count(), s.chunks.len(), s.chunks.iter().filter(|c| c.parent.is_none()).count(), x.pair_sites.len(), x.len());
+                }
+            }
         }
         return;
     }
